@@ -336,6 +336,38 @@ def classify(case, fails, only_f12, path):
     return None
 
 
+def still_a_container(env, chk, cj, back, how):
+    """A container that came out of a conversion is a container like any other: an identifier it already holds is refused
+    (input error, nothing changed), a new one is accepted and listed last.  Works on a deep copy."""
+    import copy
+    try:
+        c = copy.deepcopy(back)
+        if not c._indices:
+            return
+        first = c._indices[0]
+        params = copy.deepcopy(c._individual_parameters[first])
+        before = canon_container(env, c)
+        try:
+            c.add_individual_parameters(first, params)
+            chk.impl_failure(cj, f"container obtained {how}: an identifier it already holds ({first!r}) is accepted a second time "
+                                 f"(identifiers now {c._indices})")
+            return
+        except Exception as e:  # noqa
+            if err_class(env, e) != "err:input":
+                chk.impl_failure(cj, f"container obtained {how}: duplicate identifier refused with {type(e).__name__}, documented: input error")
+            if canon_container(env, c) != before:
+                chk.impl_failure(cj, f"container obtained {how}: the refused duplicate modified it")
+        new_id = "zz-new-" + str(len(c._indices))
+        try:
+            c.add_individual_parameters(new_id, params)
+            if c._indices[-1] != new_id or len(c._indices) != len(back._indices) + 1:
+                chk.impl_failure(cj, f"container obtained {how}: a new individual is not listed last ({c._indices[-3:]})")
+        except Exception as e:  # noqa
+            chk.impl_failure(cj, f"container obtained {how}: a new, well-formed individual is refused: {type(e).__name__}: {str(e)[:100]}")
+    except Exception:  # noqa  (deepcopy or attribute layout: not this clause's matter)
+        return
+
+
 def run_path(env, chk, case, tmpdir):
     """Run one case on the implementation; returns the canonical response string (same syntax as the driver)."""
     adds, path = case["adds"], case["path"]
@@ -392,6 +424,7 @@ def run_path(env, chk, case, tmpdir):
         for f in fl[:2]:
             chk.impl_failure(cj, f"{path} round trip: {f}", finding=classify(case, fl, only, path))
         check_untouched()
+        still_a_container(env, chk, cj, back, f"from the {path} form")
         return prefix + f"t={t} back={canon_container(env, back)}"
     if path == "torch":
         torch = env["torch"]
@@ -425,6 +458,7 @@ def run_path(env, chk, case, tmpdir):
         for f in fl[:2]:
             chk.impl_failure(cj, f"tensor round trip: {f}", finding=classify(case, fl, only, path))
         check_untouched()
+        still_a_container(env, chk, cj, back, "from the tensor form")
         return prefix + f"t={t} back={canon_container(env, back)}"
     if path == "json":
         import json
@@ -453,6 +487,7 @@ def run_path(env, chk, case, tmpdir):
         if nonempty and back._parameters_shape != ip._parameters_shape:
             chk.impl_failure(cj, f"JSON round trip: shapes {back._parameters_shape} != {ip._parameters_shape}")
         check_untouched()
+        still_a_container(env, chk, cj, back, "by loading its JSON file")
         return prefix + f"j={j} back={canon_container(env, back)}"
     if path == "jsonrev":
         import json
